@@ -301,6 +301,15 @@ def setAddO {α : Type} [DecidableEq α] (s : List α) : Option α → List α
 /-- reading an attribute only some classes of the object have: `e` where the guard says it is absent -/
 def guardE {α : Type} (e : Err) (c : Bool) (a : α) : Except Err α := if c then .ok a else .error e
 
+/-- `for x in l: …` over a list of objects whose body may mutate `x` (through its methods) and may `return`: the list with the
+    visited objects as they are afterwards, and whether the body returned (the objects after that one are not visited) -/
+def forObjs {α : Type} (l : List α) (body : α → α × Bool) : List α × Bool :=
+  match l with
+  | [] => ([], false)
+  | x :: rest =>
+    if (body x).2 then ((body x).1 :: rest, true)
+    else (((body x).1 :: (forObjs rest body).1), (forObjs rest body).2)
+
 /-- `bytearray.append(v)`: ValueError unless `v` is in range(256) -/
 def appendByteE (x : Bytes) (v : Int) : Except Err Bytes :=
   if v < 0 ∨ v ≥ 256 then .error .value else .ok (x ++ [UInt8.ofNat v.toNat])
